@@ -96,13 +96,8 @@ OutRec(m, out) ==
        ELSE IF e[1] = "u" THEN OutRec([m EXCEPT !.down = @ \ {e[2]}], Tail(out))
        ELSE OutRec(m, Tail(out))
 
-\* params.qlag (optional, used only to classify a rejection): the known finding "hist-age-queued-action" -- the
-\* ages of the key / input history stand still during a tick that performs a queued action (every firing
-\* action of a switch is performed from the action queue, one per tick: the tick that presses it)
-QLagTick(m, out) == "qlag" \in DOMAIN m.p /\ m.p.qlag /\ m.p.kind = "switch"
-                    /\ \E i \in DOMAIN out : out[i][1] = "d" /\ InSeq(m.p.acs, out[i][2])
 MonTick(m, out, idle, cb) ==
-  LET m0 == IF QLagTick(m, out) THEN m ELSE [m EXCEPT !.hk = AgeAll(@, 1), !.hi = AgeAll(@, 1)]
+  LET m0 == [m EXCEPT !.hk = AgeAll(@, 1), !.hi = AgeAll(@, 1)]
       m1 == OutRec(m0, out)
       m2 == IF m1.err = "" /\ m1.wait > 0 THEN Decide(m1) ELSE m1 IN
   IF m2.err # "" \/ m2.wait = 0 THEN m2
